@@ -82,6 +82,17 @@ CLAIMS = {
             "load / copy / assign / destroy / Union / UnionDisjointStates / Intersection / both trimmings / GetTopDownAut as spec actions; a recorded history is accepted "
             "only if each result satisfies its language contract on the current operand values and every other live automaton still denotes the language it denoted before.",
             "Trusted: TLC, Layer-0 oracle, Timbuk parser for read-back. For RemoveUnreachableStates only language preservation is demanded.", "DESIGN.md §4 C08"),
+    "C13": ("exploration", "TLC-enumerated descriptions x surface variants and token-level / truncation mutants (Timbuk.tla) plus seeded byte mutants, run through the parser and the four loaders; outcomes judged by TLC (TraceTimbuk)",
+            "Round trip and 'structured malformed input only throws' are decided on spec-generated input: TLC enumerates descriptions over pools of awkward legal names, "
+            "serialises them in 4 surface variants and enumerates every token mutation / truncation of base texts; the driver parses, loads into all 4 encodings and does "
+            "dump-load-dump; TLC checks the round-trip equalities and that every outcome is success or a std::exception (crash / hang / foreign exception = violation). "
+            "'Every byte string' can only be sampled, hence level exploration.",
+            "No sanitizer in this family: memory corruption that neither crashes nor changes a result is not observed.", "DESIGN.md §4 C13, §6"),
+    "C19": (MC, "corpus and large random automata run through all selections on a presentation and its twin, plus derived-automaton laws; recorded verdict vectors judged by TLC (TraceLaws) against laws that are theorems of TA.tla",
+            "No oracle exists for corpus-size inputs, so consequences of the contracts are checked: all selections and both presentations give one verdict, emptiness, "
+            "simulation (as renamed image) and result sizes are invariant, and A<=A, A<=AuB, AnB<=A, transitivity and A==Reduce/Trim/Reindex/Load(Dump)(A) hold for the "
+            "recorded verdicts; every call runs under its own time limit (time-out = no verdict).",
+            "Agreement is not correctness: a defect common to all selections is invisible here (it is C01's job on small inputs). Evidence states how many verdicts were obtained.", "DESIGN.md §4 C19"),
 }
 
 NOT_APPLICABLE = {
